@@ -25,12 +25,12 @@ def conf_centroid(scale, max_stride, out_stride, max_h, max_w, anchor):
     })
 
 
-def conf_centered(scale, max_stride, out_stride, max_h, max_w, crop, anchor, n_nodes):
+def conf_centered(scale, max_stride, out_stride, max_h, max_w, crop, anchor, n_nodes, cropw=None):
     from omegaconf import OmegaConf
     return OmegaConf.create({
         "model_config": {"backbone_config": {"unet": {"max_stride": max_stride}},
                          "head_configs": {"centered_instance": {"confmaps": {"output_stride": out_stride, "anchor_part": anchor, "part_names": ["n%d" % i for i in range(n_nodes)]}}}},
-        "data_config": {"preprocessing": {"scale": scale, "is_rgb": True, "max_height": max_h, "max_width": max_w, "crop_hw": [crop, crop]}},
+        "data_config": {"preprocessing": {"scale": scale, "is_rgb": True, "max_height": max_h, "max_width": max_w, "crop_hw": [crop, cropw or crop]}},
     })
 
 
@@ -93,9 +93,9 @@ def build_topdown(cfg, frames, n_nodes, max_instances=None):
 
     anchor = cfg.get("anchor")
     cc = conf_centroid(cfg["cscale"], cfg["max_stride"], cfg["cstride"], cfg.get("max_h"), cfg.get("max_w"), anchor)
-    ic = conf_centered(cfg["scale"], cfg["max_stride"], cfg["stride"], cfg.get("max_h"), cfg.get("max_w"), cfg["crop"], anchor, n_nodes)
+    ic = conf_centered(cfg["scale"], cfg["max_stride"], cfg["stride"], cfg.get("max_h"), cfg.get("max_w"), cfg["crop"], anchor, n_nodes, cfg.get("cropw"))
     s1 = IdealNet("centroid", frames, cfg["cstride"], n_nodes, anchor=anchor)
-    s2 = IdealNet("centered", frames, cfg["stride"], n_nodes, anchor=anchor, crop=cfg["crop"])
+    s2 = IdealNet("centered", frames, cfg["stride"], n_nodes, anchor=anchor, crop=(cfg["crop"], cfg.get("cropw") or cfg["crop"]))
     skel = sio.Skeleton(nodes=["n%d" % i for i in range(n_nodes)])
     pred = TopDownPredictor(centroid_config=cc, confmap_config=ic, centroid_model=s1, confmap_model=s2,
                             centroid_backbone_type="unet", centered_instance_backbone_type="unet", skeletons=[skel],
